@@ -359,11 +359,16 @@ static void *do_mmap(void *a, size_t len, int prot, int flags, int fd, off_t off
     if (!p || !enabled) return real_mmap64(a, len, prot, flags, fd, off);
     int kind = kind_of(p);
     maybe_delay(C_MMAP, kind, 1);
-    void *r = real_mmap64(a, len, prot, flags, fd, off);
-    int e = errno;
+    pthread_mutex_lock(&mu);
+    int inj = want_fault(C_MMAP, kind);
+    pthread_mutex_unlock(&mu);
+    void *r; int e;
+    if (inj) { r = MAP_FAILED; e = f_errno; }
+    else { r = real_mmap64(a, len, prot, flags, fd, off); e = errno; }
     pthread_mutex_lock(&mu);
     p = fdpath(fd);
     int fl = ((prot & PROT_WRITE) && (flags & MAP_SHARED)) ? RF_MUTATING : 0;
+    if (inj) fl |= RF_INJECTED;
     put_rec(K_MMAP, fl, fd, p, r == MAP_FAILED ? -1 : 0, r == MAP_FAILED ? e : 0, ((uint64_t)(uint32_t)prot << 32) | (uint32_t)flags, (uint64_t)len, NULL, 0);
     pthread_mutex_unlock(&mu);
     maybe_delay(C_MMAP, kind, 2);
